@@ -1,9 +1,13 @@
 package main
 
-// extraMode dispatches additional observation modes (C11 api reflection, C19 renderings).
+// extraModes: additional observation modes, registered from init() functions of other files of
+// this harness (api_c11.go: "api"; render_c19.go: "render"), so that each family owns its file.
+var extraModes = map[string]func(args []string){}
+
 func extraMode(args []string) bool {
-	switch args[0] {
-	default:
-		return false
+	if f, ok := extraModes[args[0]]; ok {
+		f(args[1:])
+		return true
 	}
+	return false
 }
